@@ -237,7 +237,7 @@ pub fn run_base(slots: &mut Vec<Option<Unimock>>, unwinding: bool, base: &Base) 
     // STARTS with the teardown/drop (drop, verify, clone_from, refused no_verify_in_drop), not by one that runs other code first
     let blocked = match *base {
         Base::CallOwn(i, _, _) | Base::Report(i) => has_callers(i),
-        Base::Call(i, m, _) | Base::CallM(i, m, _) => m >= 10 && has_callers(i),
+        Base::Call(i, m, _) | Base::CallM(i, m, _) => (10..38).contains(&m) && has_callers(i),   // 38.. are plain `&self` methods of Layer A
         _ => false,
     };
     if blocked {
@@ -346,7 +346,7 @@ fn run_base_inner(slots: &mut Vec<Option<Unimock>>, unwinding: bool, base: &Base
             let dbg_before = DEBUG_RUNS.load(std::sync::atomic::Ordering::SeqCst);
             let r = call_any(&mut slots[i], m, a);
             let trace = trace_take();
-            if r == "P:user:matcher" {
+            if r == "P:user:matcher" || r == "P:user:debug" {
                 return r;
             }
             let items: Vec<String> = trace.iter().map(|(d, diag)| format!("{d}{}", if *diag { "d" } else { "" })).collect();
